@@ -371,7 +371,7 @@ PROPS["C13"] = dict(
     ],
     gates=dict(evaluations=(2500, 200000), distinct=(1500, 50000),
                counters={"scenario_identical-puts": (500, 50000), "scenario_overlap-evict": (200, 20000), "steered_grants": (15000, 1000000), "hook_points_crossed": (20000, 1000000),
-                         "seq_histories_with_eviction": (200, 20000), "enumerated_schedules": (2000, 200000), "scenarios_enumerated_exhaustively": (10, 100)}),
+                         "seq_histories_with_eviction": (200, 20000), "enumerated_schedules": (2000, 200000), "scenarios_enumerated_exhaustively": (10, 40)}),
 )
 
 PROPS["C20"] = dict(
